@@ -1,15 +1,23 @@
 pub mod c01;
+pub mod c02;
+pub mod c05;
 pub mod c07;
+pub mod c11;
+pub mod c12;
 
 use crate::framework::Ctx;
 use serde_json::Value as J;
 
-pub const ALL: &[&str] = &["C01", "C07"];
+pub const ALL: &[&str] = &["C01", "C02", "C05", "C07", "C11", "C12"];
 
 pub fn run(ctx: &mut Ctx) {
 	match ctx.prop {
 		"C01" => c01::run(ctx),
+		"C02" => c02::run(ctx),
+		"C05" => c05::run(ctx),
 		"C07" => c07::run(ctx),
+		"C11" => c11::run(ctx),
+		"C12" => c12::run(ctx),
 		p => panic!("unknown property {p}"),
 	}
 }
@@ -17,7 +25,11 @@ pub fn run(ctx: &mut Ctx) {
 pub fn replay(prop: &str, family: &str, case: &J) -> Result<(), String> {
 	match prop {
 		"C01" => c01::replay(family, case),
+		"C02" => c02::replay(family, case),
+		"C05" => c05::replay(family, case),
 		"C07" => c07::replay(family, case),
+		"C11" => c11::replay(family, case),
+		"C12" => c12::replay(family, case),
 		p => Err(format!("unknown property {p}")),
 	}
 }
